@@ -112,3 +112,64 @@ func VHAvlBig() {
 	}
 	vCover("avl big done")
 }
+
+// VHAvlDupKeys: values that compare equal under the comparator (it looks at v>>4 only) but are
+// pairwise distinct, so that the shape can still be reconstructed from the traversals: a
+// perfect tree of 15, 31 or 63 keys receives up to three more values whose keys are already
+// present - at the root, at an inner node, at a leaf, chosen per path - and then loses one of
+// them (if it is found). After every call the tree revealed by the traversals must be balanced and within the
+// depth bound, the in-order keys non-decreasing, and Len right. (Equal keys are where an
+// insertion stops descending by comparison and a shortcut is tempting.)
+func VHAvlDupKeys() {
+	levels := 4 + vChoose("levels", 3)
+	n := 1<<levels - 1
+	key := func(v int) int { return v >> 4 }
+	t := New(func(a, b int) int {
+		switch {
+		case key(a) < key(b):
+			return -1
+		case key(a) > key(b):
+			return 1
+		}
+		return 0
+	})
+	// insert in breadth-first order of a perfect tree: no rotations needed
+	for width := (n + 1) / 2; width >= 1; width /= 2 {
+		for k := width; k <= n; k += 2 * width {
+			t.Add(16 * k)
+		}
+	}
+	size := n
+	check := func(what string) {
+		pre, in := t.SlicePreOrder(), t.SliceInOrder()
+		vAssert(len(pre) == size && len(in) == size && t.Len() == size, what+": every traversal lists every value")
+		for i := 1; i < len(in); i++ {
+			vAssert(key(in[i-1]) <= key(in[i]), what+": the in-order slice is ordered under the comparator")
+		}
+		var post []int
+		sh := c01bRebuild(pre, in, &post)
+		vAssert(sh.ok, what+": pre-order and in-order slices are traversals of one tree")
+		vAssert(sh.balanced, what+": the tree revealed by the traversals is height-balanced")
+		vAssert(sh.height <= c01bMaxHeight(size), what+": no value lies deeper than the AVL bound allows")
+	}
+	check("equal keys: the perfect tree")
+	root := (n + 1) / 2
+	spots := []int{root, root / 2, root + root/2, 1, n, root - 1, root + 1}
+	var added []int
+	for j := 1; j <= 3; j++ {
+		k := spots[vChoose("spot", len(spots))]
+		v := 16*k + j
+		t.Add(v)
+		added = append(added, v)
+		size++
+		check("equal keys: after adding a value whose key is present")
+	}
+	r := added[vChoose("remove", len(added))]
+	// (whether Remove finds a value among others of the same key is not asked here: C01 states
+	// membership for comparators consistent with == only; the shape must be right either way)
+	if t.Remove(r) {
+		size--
+	}
+	check("equal keys: after a removal")
+	vCover("avl dup keys done")
+}
